@@ -221,4 +221,46 @@ class C17e(C18d):
     title = 'every definition token (also *args / **kwargs and annotated parameters) reports the position at which the text is exactly its name'
 
 
-OBLIGATIONS = [C17a, C17b, C17c, C17d, C17e]
+class C17f(Obligation):
+    id = 'C17.f'
+    title = 'the definition range [start, end] encloses the name, whatever token the defining node ends with'
+    pattern = 'P3 (defining node is a stub with symbolic leaf positions)'
+    assumptions = ('the defining node ends either in a NEWLINE leaf (def/class blocks) or in the name token itself '
+                   '(e.g. "from m import name" bound to a function); positions are symbolic and ordered as in source',)
+
+    def scenario(self, ctx, cfg):
+        kind = ctx.oneof('name_type', ('function', 'class', 'statement'))
+        ends_in_newline = ctx.flag('definition_ends_in_newline_leaf')
+        line = ctx.int('line', 1)
+        name_col = ctx.int('name_start_column', 0)
+        name_len = ctx.int('name_length', 1, 6)
+        start_col = ctx.int('definition_start_column', 0)
+        ctx.assume(start_col <= name_col)
+        name_end = (line, name_col + name_len)
+        if ends_in_newline:
+            body_end_line = ctx.int('last_code_line', 1)
+            ctx.assume(body_end_line >= line)
+            prev_end_col = ctx.int('last_code_end_column', 0)
+            ctx.assume(ctx.Or(body_end_line > line, prev_end_col >= name_col + name_len))
+            prev = Obj(end_pos=(body_end_line, prev_end_col))
+            last_leaf = Obj(type='newline', end_pos=(body_end_line + 1, 0), get_previous_leaf=lambda: prev)
+            true_end = (body_end_line, prev_end_col)
+        else:
+            last_leaf = Obj(type='name', end_pos=name_end, get_previous_leaf=lambda: Obj(end_pos=(line, name_col - 1)))
+            true_end = name_end
+        definition = Obj(start_pos=(line, start_col), end_pos=true_end, get_last_leaf=lambda: last_leaf)
+        tree_name = Obj(get_definition=lambda: definition, end_pos=name_end)
+        n = base_name(Obj(tree_name=tree_name, start_pos=(line, name_col)))
+        ctx.patch(classes.BaseName, 'type', kind)
+        out_s = ctx.call(n.get_definition_start_position)
+        out_e = ctx.call(n.get_definition_end_position)
+        ctx.check(out_s.exc is None and out_e.exc is None, 'never raises')
+        if out_s.exc is not None or out_e.exc is not None:
+            return
+        s0, e0 = out_s.value, out_e.value
+        starts_before = ctx.Or(s0[0] < line, ctx.And(s0[0] == line, s0[1] <= name_col))
+        ends_after = ctx.Or(e0[0] > line, ctx.And(e0[0] == line, e0[1] >= name_col + name_len))
+        ctx.check(ctx.And(starts_before, ends_after), 'the definition range encloses the name')
+
+
+OBLIGATIONS = [C17a, C17b, C17c, C17d, C17e, C17f]
